@@ -99,3 +99,63 @@ Proof.
   apply orb_prop in H as [H|H]; [|apply Z.eqb_eq; exact H].
   apply negb_true_iff in H. apply String.eqb_neq in H. contradiction.
 Qed.
+
+Lemma path_eqb_eq p q : path_eqb p q = true -> render p = render q.
+Proof.
+  unfold path_eqb. intros H. apply andb_prop in H as [A B]. apply Bool.eqb_prop in A.
+  assert (parts p = parts q).
+  { revert B. generalize (parts p) (parts q). intros la. induction la as [|x la IH]; intros [|y m]; cbn; try discriminate; auto.
+    intros H. apply andb_prop in H as [H1 H2]. apply String.eqb_eq in H1. subst. f_equal. exact (IH m H2). }
+  unfold render. rewrite A, H. reflexivity.
+Qed.
+
+Lemma qnub_keeps l : forall e, In e l -> exists e', In e' (qnub l) /\ qentry_eqb e e' = true.
+Proof.
+  assert (Refl : forall e, qentry_eqb e e = true).
+  { intros e. unfold qentry_eqb, pentry_eqb, path_eqb. rewrite Bool.eqb_reflx, Z.eqb_refl, Bool.eqb_reflx, String.eqb_refl.
+    cbn. rewrite !andb_true_r. induction (parts (pe_path (qe e))) as [|x xs IHl]; [reflexivity|]. cbn. rewrite String.eqb_refl. exact IHl. }
+  assert (Trans : forall a b c, qentry_eqb a b = true -> qentry_eqb b c = true -> qentry_eqb a c = true).
+  { intros a b c. unfold qentry_eqb, pentry_eqb. intros H1 H2.
+    apply andb_prop in H1 as [H1 T1]. apply andb_prop in H1 as [H1 I1]. apply andb_prop in H1 as [P1 S1].
+    apply andb_prop in H2 as [H2 T2]. apply andb_prop in H2 as [H2 I2]. apply andb_prop in H2 as [P2 S2].
+    apply String.eqb_eq in T1, T2. apply Bool.eqb_prop in I1, I2. apply Z.eqb_eq in S1, S2.
+    rewrite T1, T2, I1, I2, S1, S2, String.eqb_refl, Bool.eqb_reflx, Z.eqb_refl. cbn. rewrite !andb_true_r.
+    clear -P1 P2. unfold path_eqb in *. apply andb_prop in P1 as [A1 B1]. apply andb_prop in P2 as [A2 B2].
+    apply Bool.eqb_prop in A1, A2. rewrite A1, A2, Bool.eqb_reflx. cbn.
+    revert B1 B2. generalize (parts (pe_path (qe a))) (parts (pe_path (qe b))) (parts (pe_path (qe c))).
+    intros la. induction la as [|x la IHl]; intros [|y m] [|z n]; cbn; try discriminate; auto.
+    intros H1 H2. apply andb_prop in H1 as [H1 H1']. apply andb_prop in H2 as [H2 H2'].
+    apply String.eqb_eq in H1, H2. subst. rewrite String.eqb_refl. cbn. exact (IHl m n H1' H2'). }
+  induction l as [|a r IH]; intros e He; [destruct He|]. cbn [qnub].
+  destruct (existsb (qentry_eqb a) r) eqn:Ex.
+  - destruct He as [<-|He]; [|exact (IH e He)].
+    apply existsb_exists in Ex as [b [Hb Eb]]. destruct (IH b Hb) as [e' [He' Ee']].
+    exists e'. split; [exact He'|exact (Trans a b e' Eb Ee')].
+  - destruct He as [<-|He]; [exists a; split; [left; reflexivity|apply Refl]|].
+    destruct (IH e He) as [e' [He' Ee']]. exists e'. split; [right; exact He'|exact Ee'].
+Qed.
+
+(* the queue covers every listed path, and queues nothing that is not listed *)
+Lemma pool_queue_complete srcs pkgs e :
+  In e (List.concat srcs ++ List.concat pkgs) ->
+  exists f, In f (pool_queue srcs pkgs) /\ all_paths f = [render (pe_path (qe e))].
+Proof.
+  intros He. apply in_app_or in He.
+  assert (exists e1, In e1 (qdedup_last (List.concat srcs) ++ qdedup_last (List.concat pkgs)) /\
+                     path_eqb (pe_path (qe e)) (pe_path (qe e1)) = true) as [e1 [H1 P1]].
+  { destruct He as [He|He]; destruct (qdedup_last_keeps_paths _ e He) as [e1 [A B]]; exists e1; split; auto;
+      apply in_or_app; [left|right]; exact A. }
+  destruct (qnub_keeps _ e1 H1) as [e2 [H2 E2]].
+  exists (pool_file_of e2). split; [unfold pool_queue, pool_entries; apply in_map; exact H2|].
+  unfold pool_file_of, all_paths. cbn. f_equal.
+  unfold qentry_eqb, pentry_eqb in E2. apply andb_prop in E2 as [E2 _]. apply andb_prop in E2 as [E2 _].
+  apply andb_prop in E2 as [E2 _]. rewrite (path_eqb_eq _ _ P1), (path_eqb_eq _ _ E2). reflexivity.
+Qed.
+
+Lemma pool_queue_sound srcs pkgs f :
+  In f (pool_queue srcs pkgs) ->
+  exists e, In e (List.concat srcs ++ List.concat pkgs) /\ f = pool_file_of e.
+Proof.
+  unfold pool_queue. intros H. apply in_map_iff in H as [e [<- He]]. exists e. split; [|reflexivity].
+  exact (pool_entries_incl srcs pkgs e He).
+Qed.
